@@ -30,6 +30,9 @@ def evaluate(entry: str = "systems") -> Evaluator:
     if ev.opaque_uses:
         w, t = ev.opaque_uses[0]
         raise AnalysisError(f"a value outside the declaration DSL reaches a declaration at {w}: {t}")
+    un = ev.unvisited_sites()
+    if un:
+        raise AnalysisError(f"declaration call sites never evaluated (outside the DSL E5 interprets): {un[:4]}")
     if ev.problems:
         k, w, m = ev.problems[0]
         raise AnalysisError(f"the declaration model raises at {w}: {m} (the library would fail at import)")
